@@ -828,14 +828,19 @@ pub fn check_c07(case: &ByteCase, rep: &mut Report) {
 pub fn c07_shard_main(seed: u64, from: u64, count: u64, journal: &str, single: bool) -> i32 {
     let progress = Arc::new(AtomicU64::new(0));
     let current = Arc::new(AtomicU64::new(from));
+    let done = Arc::new(AtomicU64::new(0));
     {
         let progress = progress.clone();
         let current = current.clone();
+        let done = done.clone();
         std::thread::spawn(move || {
             let mut last = u64::MAX;
             let mut stuck_since = Instant::now();
             loop {
                 std::thread::sleep(Duration::from_millis(500));
+                if done.load(Ordering::Relaxed) != 0 {
+                    return; // all cases finished: writing the report is not a monitored call
+                }
                 let p = progress.load(Ordering::Relaxed);
                 if p != last {
                     last = p;
@@ -861,9 +866,19 @@ pub fn c07_shard_main(seed: u64, from: u64, count: u64, journal: &str, single: b
         check_c07(&case, &mut rep);
         progress.fetch_add(1, Ordering::Relaxed);
     }
+    done.store(1, Ordering::Relaxed);
+    // the hashes of the distinct inputs go to a binary side file (8 bytes each): the parent merges them
+    let hashes_path = format!("{}.hashes", journal);
+    {
+        let mut bytes: Vec<u8> = Vec::with_capacity(rep.nontrivial.len() * 8);
+        for h in rep.nontrivial.iter() {
+            bytes.extend_from_slice(&h.to_le_bytes());
+        }
+        let _ = std::fs::write(&hashes_path, bytes);
+    }
     let out = json!({
         "evaluations": rep.evaluations,
-        "nontrivial": rep.nontrivial.iter().collect::<Vec<_>>(),
+        "nontrivial_file": hashes_path,
         "counters": rep.counters,
         "samples": rep.samples,
         "violations": rep.violations.iter().map(|v| json!({"sig": v.sig, "detail": v.detail, "case": v.case, "n": rep.violation_counts.get(&v.sig)})).collect::<Vec<_>>(),
@@ -875,15 +890,24 @@ pub fn c07_shard_main(seed: u64, from: u64, count: u64, journal: &str, single: b
     0
 }
 
+thread_local! {
+    /// hashes of distinct inputs reported by child shards (merged by sort + dedup at the end)
+    static CHILD_HASHES: std::cell::RefCell<Vec<u64>> = const { std::cell::RefCell::new(Vec::new()) };
+}
+
 fn merge_child_report(line: &str, rep: &mut Report) {
     if let Ok(v) = serde_json::from_str::<Value>(line) {
         rep.evaluations += v["evaluations"].as_u64().unwrap_or(0);
-        if let Some(a) = v["nontrivial"].as_array() {
-            for x in a {
-                if let Some(h) = x.as_u64() {
-                    rep.nontrivial.insert(h);
-                }
+        if let Some(f) = v["nontrivial_file"].as_str() {
+            if let Ok(bytes) = std::fs::read(f) {
+                CHILD_HASHES.with(|c| {
+                    let mut c = c.borrow_mut();
+                    for ch in bytes.chunks_exact(8) {
+                        c.push(u64::from_le_bytes(ch.try_into().unwrap()));
+                    }
+                });
             }
+            let _ = std::fs::remove_file(f);
         }
         if let Some(o) = v["counters"].as_object() {
             for (k, n) in o {
@@ -910,8 +934,30 @@ fn merge_child_report(line: &str, rep: &mut Report) {
 }
 
 /// run one child over a range; returns (exit status description, stdout)
+thread_local! {
+    /// private copy of this executable for child processes (a rebuild of the harness during a long run
+    /// must not pull the binary away from under the shards)
+    static CHILD_EXE: std::cell::RefCell<Option<std::path::PathBuf>> = const { std::cell::RefCell::new(None) };
+}
+
+pub fn private_exe(work: &Path) -> std::path::PathBuf {
+    let dst = work.join("xsgmon-copy");
+    if !dst.exists() {
+        if let Ok(src) = std::env::current_exe() {
+            let _ = std::fs::create_dir_all(work);
+            if std::fs::copy(&src, &dst).is_err() {
+                return src;
+            }
+        }
+    }
+    dst
+}
+
 fn spawn_child(seed: u64, from: u64, count: u64, journal: &Path, wrapper: &[&str]) -> std::io::Result<std::process::Child> {
-    let exe = std::env::current_exe()?;
+    let exe = match CHILD_EXE.with(|c| c.borrow().clone()) {
+        Some(p) => p,
+        None => std::env::current_exe()?,
+    };
     let mut cmd = if wrapper.is_empty() {
         Command::new(&exe)
     } else {
@@ -947,7 +993,9 @@ fn confirm_single(seed: u64, index: u64, work: &Path) -> (bool, String) {
             Err(e) => outcomes.push(format!("spawn failed: {}", e)),
         }
     }
-    let all_bad = outcomes.iter().all(|o| !o.contains("exit status: 0"));
+    // reproduced only if the child really ran and ended abnormally every time
+    let ran = outcomes.iter().all(|o| !o.contains("spawn failed") && !o.contains("wait failed"));
+    let all_bad = ran && outcomes.iter().all(|o| !o.contains("exit status: 0"));
     (all_bad, outcomes.join(", "))
 }
 
@@ -955,6 +1003,7 @@ pub fn run_c07(thorough: bool, seed: u64, shards: usize) -> (Report, String, Val
     let n: u64 = if thorough { 64_000_000 } else { 1_600_000 };
     let work = crate::report::out_dir().join("work").join(format!("c07-{}", std::process::id()));
     let _ = std::fs::create_dir_all(&work);
+    CHILD_EXE.with(|c| *c.borrow_mut() = Some(private_exe(&work)));
     let mut rep = Report::new();
     let per = n / shards as u64;
     let mut children = Vec::new();
@@ -1010,6 +1059,16 @@ pub fn run_c07(thorough: bool, seed: u64, shards: usize) -> (Report, String, Val
         let _ = std::fs::remove_file(&j);
     }
     rep.add("shards_that_died", dead_shards);
+    let distinct_inputs = CHILD_HASHES.with(|c| {
+        let mut c = c.borrow_mut();
+        c.sort_unstable();
+        c.dedup();
+        let n = c.len() as u64;
+        c.clear();
+        c.shrink_to_fit();
+        n
+    });
+    rep.nontrivial_enumerated += distinct_inputs;
 
     // sanitizer slices (thorough): valgrind memcheck over the same stream
     let mut extra = json!({});
